@@ -199,6 +199,11 @@ def r19_2(rep: Report) -> None:
             for t_, v_ in zip(n.targets[0].elts, n.value.elts):
                 if isinstance(t_, ast.Name) and 'micro' in t_.id.lower():
                     cands.append((n, v_))
+        # {'second': .., 'microsecond': <value>} handed to datetime(**kwargs) / kwargs.update(..)
+        if isinstance(n, ast.Dict):
+            for k_, v_ in zip(n.keys, n.values):
+                if isinstance(k_, ast.Constant) and isinstance(k_.value, str) and 'microsecond' in k_.value:
+                    cands.append((n, v_))
         # datetime.datetime(y, m, d, H, M, S, <microsecond>, ...)
         if isinstance(n, ast.Call) and (call_name(n) or '').endswith('datetime') and len(n.args) >= 7:
             cands.append((n, n.args[6]))
@@ -486,25 +491,29 @@ def r19_4(rep: Report) -> None:
         if isinstance(n, ast.ImportFrom):
             for a in n.names:
                 imports[a.asname or a.name] = f'{n.module}.{a.name}'
+    from ..core import template_filters
+    regs = template_filters(rep.repo, TAGS)
     for filt, target in (('isoDuration', 'toIsoDuration'), ('isoDateTime', 'to_iso_datetime')):
-        fn = need(find_func(tree, filt), f'{TAGS}::{filt}')
         construct = f'{TAGS}::{filt}'
-        deco = [norm(d) for d in fn.decorator_list]
-        registered = any('app_template_filter' in d for d in deco)
-        body = [s for s in fn.body if not (isinstance(s, ast.Expr) and isinstance(s.value, ast.Constant))]
+        if filt not in regs:
+            raise AnalysisError(f'anchor vanished: {TAGS}::{filt}')
+        fn, how = regs[filt]
         ok = False
-        if len(body) == 1 and isinstance(body[0], ast.Return) and isinstance(body[0].value, ast.Call):
-            c = body[0].value
+        if getattr(fn, 'name', None) == target:
+            ok = True                   # the library function itself is registered as the filter
+        else:
+            # every path of the filter returns the term  <target>(<its parameter>)  (sa/termeval.py)
+            from ..termeval import TermEval
             param = fn.args.args[0].arg if fn.args.args else None
-            if call_name(c) == target and imports.get(target, '').endswith('date_time.' + target) \
-                    and len(c.args) == 1 and norm(c.args[0]) == param:
+            paths = [p_ for p_ in TermEval({}).run(fn, {}) if p_.done == 'return']
+            texts = {getattr(p_.result, 'text', repr(p_.result)) for p_ in paths}
+            if paths and texts == {f'{target}({param})'} and imports.get(target, '').endswith('date_time.' + target):
                 ok = True
-        if ok and registered:
-            rep.ok(rid, construct, target)
+        if ok:
+            rep.ok(rid, construct, target, f'registered ({how})')
         else:
             rep.fail(rid, construct, target,
-                     f'filter {filt} is not `return {target}(value)` registered with '
-                     f'app_template_filter (decorators {deco})', fn)
+                     f'filter {filt} is not `{target}` applied to its argument (registered as {how})', fn)
 
 
 def r19_5(rep: Report) -> None:
